@@ -343,7 +343,7 @@ StepRConnect ==
                 \cup CrashTags(Ev.abort, st, exp.st, log, <<0, 0>>, g.granted)
                 \cup (IF Comparable(exp.abort, Ev.abort)
                       THEN Conf(exp, log, sends, "C07", "C04", "C04", "C04", "C02")
-                           \cup Lift(C04_RConnect(st, E, log, g2) \cup C02_Sends(st, E, log, g) \cup C07_Copies(log))
+                           \cup Lift(C04_RConnect(st, E, log, [g2 EXCEPT !.fresh = g.fresh]) \cup C02_Sends(st, E, log, g) \cup C07_Copies(log))
                            \cup CacheTags(Ev.post, st.wCache, exp.st.rIndex)
                       ELSE {})
           /\ alive' = (alive /\ Ev.abort = "")
